@@ -303,10 +303,11 @@ spec_strat = st.one_of(
 @st.composite
 def run_case(draw, big=False):
     specs = draw(st.lists(spec_strat, min_size=draw(st.sampled_from([0, 1, 1, 2, 2, 2])), max_size=6 if big else 4))
-    n = draw(st.sampled_from([0, 1, 2] + list(range(3, 11)) * 3)) if not big else draw(st.integers(8, 30))
+    n = draw(st.sampled_from(list(range(4, 11)) * 3 + [3, 3, 3, 2, 1, 0, 0, 0])) if not big else draw(st.integers(8, 30))
     bufsize = draw(st.one_of(st.integers(1, 4), st.integers(1, 4), st.integers(1, 7 if big else 3), st.sampled_from([n + 1, 1000, None])))
     # LenaStopFill indices mostly inside the flow (so that stops happen in every block, also later ones)
-    specs = [[s[0], draw(st.integers(0, n))] + s[2:] if s[0] in ("fc_t", "fr_t") and n and draw(st.integers(0, 3)) else s
+    lo = bufsize if (bufsize and bufsize < n and draw(st.integers(0, 3))) else 0   # most of them in a later block
+    specs = [[s[0], draw(st.integers(lo, n))] + s[2:] if s[0] in ("fc_t", "fr_t") and n and draw(st.integers(0, 3)) else s
              for s in specs]
     return {"specs": specs, "n": n, "bufsize": bufsize, "copy_buf": draw(st.booleans()),
             "flow_as": draw(st.sampled_from(["iter", "list"])),
@@ -507,11 +508,11 @@ def judge_invalid(case):
 
 
 CHECKS = [
-    Check("run_schedule", judge_run, strategy=lambda tier: run_case() if tier != "thorough" else st.one_of(run_case(), run_case(big=True)), quick=3000, thorough=100000,
+    Check("run_schedule", judge_run, strategy=lambda tier: run_case() if tier != "thorough" else st.one_of(run_case(), run_case(big=True)), quick=8000, thorough=100000,
           rule="0-4 branches from fourteen tagged kinds (Source, bare and tuple fill/compute, nested Splits of one common type, bare and tuple fill/request with LenaStopFill at index k, "
                "map, filter, 1:n expander, per-block tail, Slice sequence) x bufsize in {1..4, n+1, 1000, None} x copy_buf x flows 0..10; exact output list "
                "and invocation counts. Non-trivial = >=2 branches of >=2 kinds over >=2 blocks, a LenaStopFill in a later block, or an empty flow with >=2 branches."),
-    Check("common_type", judge_common, strategy=lambda tier: common_case(), quick=1200, thorough=30000,
+    Check("common_type", judge_common, strategy=lambda tier: common_case(), quick=3000, thorough=30000,
           rule="all-fill/compute, all-fill/request (requests at arbitrary points), all-Source Splits, mixed Split() call, Zip of 1-3 branches with/without fields."),
     Check("invalid", judge_invalid, strategy=strat_invalid, quick=60, thorough=300,
           rule="invalid arguments raise LenaTypeError/LenaValueError."),
